@@ -218,7 +218,12 @@ def c05_step(op, out, before, after):
     if cmd in ("add", "rm", "rmi", "set", "eset", "setfmt"):
         if b_attr != a_attr:
             bad.append("%s changed attributes" % op)
-    failed = r in ("n-", "i0") if cmd in ("add", "eset", "rm", "rmi", "set", "setfmt") else False
+    if cmd == "rm" and f[2] != "-":
+        exp = doc_rm_expect(b_root, f[1], unhx(f[2]))
+        if exp is True and r == "i0":
+            bad.append("'%s' names an existing member by its documented path but the removal failed" % op)
+        if exp is False and r == "i1":
+            bad.append("'%s' names no member but the removal succeeded" % op)
     if cmd in ("add", "eset") and r == "n-" or cmd in ("rm", "rmi", "set", "setfmt") and r == "i0":
         if bsig != asig:
             bad.append("'%s' reported failure but changed the configuration" % op)
@@ -280,6 +285,38 @@ def c05_step(op, out, before, after):
         if bsig != asig or b_attr != a_attr:
             bad.append("query '%s' changed the configuration" % op)
     return bad
+
+
+def tnode_resolve(root, base_path, path_bytes):
+    """documented path resolution on a dumped tree; returns (comps, chain) with chain None when nothing is named;
+    comps None when the text is outside the documented syntax"""
+    base = subtree_at(root, base_path)
+    if base is None:
+        return None, None
+    comps = gen_api.doc_parse_path(path_bytes)
+    if comps is None:
+        return None, None
+    ch = gen_api.doc_resolve(base, comps, lambda n: n.kids, lambda n: (unhx(n.name) if n.name != "-" else None),
+                             lambda n: n.ty)
+    return comps, ch
+
+
+def doc_rm_expect(root, base, path_bytes):
+    """True: must succeed; False: must fail; None: outside the documented statement"""
+    bp = () if base == "." else tuple(int(x) for x in base.split("/"))
+    b = subtree_at(root, bp)
+    if b is None:
+        return None
+    comps, ch = tnode_resolve(root, bp, path_bytes)
+    if comps is None:
+        return None
+    if b.ty != 1:
+        return False
+    if ch is None:
+        return False
+    if isinstance(comps[-1], int):
+        return None       # path ending in an index: config_setting_remove is documented for named settings
+    return True
 
 
 def count(n):
@@ -351,7 +388,11 @@ def correspond(ctx, res, cases, drop_prefixes=(), line_filter=None, oracle=None,
     res.distribution[label + "_process_status"] = seen_status
     # group failing records per process chunk: a crash poisons the whole chunk, so re-run singly
     final = []
+    failing.sort(key=lambda r: 0 if r.get("oracle") else 1)
+    nbroken0 = len(res.corr_broken)
     for r in failing[:60]:
+        if not r.get("oracle") and len(res.corr_broken) - nbroken0 >= 3:
+            continue
         rr = run_single(runner, r["script"], drop_prefixes=drop_prefixes, line_filter=line_filter)
         problem = None
         if rr["diff"] is not None:
@@ -389,9 +430,40 @@ def correspond(ctx, res, cases, drop_prefixes=(), line_filter=None, oracle=None,
         else:
             res.corr_broken.append(text)
         final.append(rs)
-        if len(res.violations) + len(res.corr_broken) >= 5:
+        if len(res.violations) >= 3:
             break
     return final
+
+
+def focus_from(res):
+    """(cmd, kind) pairs of the operations on which model and implementation disagreed (from the shrunk scripts)."""
+    foc = []
+    for text in res.corr_broken:
+        ops = [l for l in text.splitlines() if l and not l.startswith("#") and l != "dump" and not l.startswith("init")]
+        for l in ops[-2:]:
+            f = l.split(" ")
+            k = f[1] if f[0] in ("set", "eset", "get", "eget", "mlook", "plook") and len(f) > 1 else None
+            if (f[0], k) not in foc:
+                foc.append((f[0], k))
+    return foc
+
+
+def focus_search(ctx, res, oracle, known=None, drop_prefixes=(), line_filter=None, n=900, hist_kwargs=None):
+    """The correspondence broke but no case of the generator stream violates the property itself: search
+    around the disagreeing operations for a concrete input on which the implementation does."""
+    if not res.corr_broken or res.violations:
+        return
+    foc = focus_from(res)
+    if not foc:
+        return
+    rng = random.Random(ctx.seed + 7)
+    kw = dict(hist_kwargs or {})
+    cases = [gen_api.random_history(rng, rng.choice([8, 15, 30]), focus=foc, paths=True, **kw) for _ in range(n)]
+    res.notes.append("focus search around %s: %d histories" % (foc, len(cases)))
+    keep = list(res.corr_broken)
+    correspond(ctx, res, cases, drop_prefixes=drop_prefixes, line_filter=line_filter, oracle=oracle, known=known,
+               label="search")
+    res.corr_broken = keep + [x for x in res.corr_broken if x not in keep][:0]
 
 
 def summarize_ops(cases):
@@ -435,7 +507,8 @@ def run_c05(ctx):
         res.exhaustive = True
         nrand = 600 if ctx.tier == "quick" else 6000
         for i in range(nrand):
-            cases.append(gen_api.random_history(rng, rng.choice([10, 30, 60, 120]), crossing=(i % 5 == 0)))
+            cases.append(gen_api.random_history(rng, rng.choice([10, 30, 60, 120]), crossing=(i % 5 == 0),
+                                                paths=(i % 2 == 0)))
     res.rule = ("every history over a %d-op alphabet on a 4-setting seed tree to depth %s (overrides off and on), "
                 "plus random histories of 10-120 calls with boundary arguments; a dump after every call; "
                 "distinct = SHA-1 of the script without dump lines, non-trivial = more than 2 calls"
@@ -445,6 +518,7 @@ def run_c05(ctx):
     res.samples = [cases[0], cases[len(cases) // 2], cases[-1]]
     # scope: return values, tree dump (no source lines/files: API-built), attributes; no E line
     correspond(ctx, res, cases, drop_prefixes=("E ",), oracle=c05_oracle, known=known_c05)
+    focus_search(ctx, res, c05_oracle, known=known_c05, drop_prefixes=("E ",))
     crash_cases(ctx, res)
     return res
 
@@ -547,6 +621,7 @@ def run_c04(ctx):
             return l
         return None
     correspond(ctx, res, cases, line_filter=structure_only, oracle=c04_oracle)
+    focus_search(ctx, res, c04_oracle, line_filter=structure_only)
     return res
 
 
@@ -613,6 +688,13 @@ def c07_cases():
 
 
 def c07_oracle(script, rec):
+    try:
+        return c07_oracle_(script, rec)
+    except (IndexError, ValueError, KeyError):
+        return died(script, rec)
+
+
+def c07_oracle_(script, rec):
     """Documented conversion rules evaluated on the implementation's transcript (independent of the model)."""
     bad = died(script, rec)
     al = align(script, rec["impl"])
@@ -658,11 +740,28 @@ def c07_oracle(script, rec):
                     op, st, auto, r, "success" if exp else "failure"))
             # exactness of int -> float
             if r == "i1" and st == "f" and k == "i":
-                root, _, _, _ = parse_dump(outs[i + 1]) if ops[i + 1] == "dump" else (None, None, None, None)
+                root, _, _, _ = parse_dump(outs[i + 1]) if (i + 1 < len(ops) and ops[i + 1] == "dump") else (None, None, None, None)
                 if root is not None and root.kids and root.kids[0].val.startswith("f"):
                     if fval(root.kids[0].val) != float(int(v)):
                         bad.append("'%s' stored %r, not exactly %s" % (op, fval(root.kids[0].val), v))
-            if r == "i0" and ops[i + 1] == "dump":
+            if r == "i1" and i + 1 < len(ops) and ops[i + 1] == "dump":
+                root, _, _, _ = parse_dump(outs[i + 1])
+                if root is not None and root.kids:
+                    got = root.kids[0]
+                    if st == k:
+                        want = ("f" + v[1:]) if k == "f" else (k + v)
+                    elif st in "il" and k in "il":
+                        want = st + v
+                    elif st == "f":
+                        want = "f%016x" % struct.unpack("<Q", struct.pack("<d", float(int(v))))[0]
+                    elif k == "f":
+                        want = st + str(int(fval(v)))
+                    else:
+                        want = None
+                    if want is not None and (got.val != want or got.ty != KTY[st]):
+                        bad.append("'%s' on a stored %s succeeded but the setting now holds %s (type %d), expected %s" % (
+                            op, st, got.val, got.ty, want))
+            if r == "i0" and i + 1 < len(ops) and ops[i + 1] == "dump":
                 root, _, _, _ = parse_dump(outs[i + 1])
                 if root is not None and root.kids and (root.kids[0].val != (("f" + sv[1:]) if st == "f" else
                                                        {"i": "i", "l": "l", "b": "b", "s": "s"}[st] + sv)
@@ -729,6 +828,7 @@ def run_c07(ctx):
     res.samples = [cases[0], cases[len(cases) // 2]]
     correspond(ctx, res, cases, drop_prefixes=("E ", "A "), oracle=c07_oracle,
                known=lambda s, r, o: match_known("C07", s, r, o))
+    focus_search(ctx, res, c07_oracle, drop_prefixes=("E ", "A "))
     return res
 
 
